@@ -161,6 +161,9 @@ func (c *SpecCtx) term(x ast.Expr) T {
 
 func (c *SpecCtx) boolTerm(x ast.Expr) T {
 	t := c.term(x)
+	if t.So == "AnyLit" {
+		return c.e.freshConst(t.S, SBool) // result of a call that did not happen on this path: arbitrary
+	}
 	if t.So != SBool {
 		c.e.fail("spec: expected bool in %s, got %s", exprString(x), t.So)
 		return c.e.freshConst("badspec", SBool)
@@ -847,6 +850,17 @@ func (c *SpecCtx) call(n *ast.CallExpr) SV {
 		for k := range c.st.Ghost {
 			if strings.HasPrefix(k, "lastrecv:") {
 				ds = append(ds, Eq(ch, T{strings.TrimPrefix(k, "lastrecv:"), SChan}))
+			}
+		}
+		sort.Slice(ds, func(i, j int) bool { return ds[i].S < ds[j].S })
+		return SV{V: Or(ds...)}
+	case "wgwaited":
+		// wgwaited(wg): this execution has called Wait on the *sync.WaitGroup wg (since the last loop cut)
+		w := c.coerceTo(c.eval(n.Args[0]), SRef)
+		var ds []T
+		for k := range c.st.Facts {
+			if strings.HasPrefix(k, "wgwait:") {
+				ds = append(ds, Eq(w, T{strings.TrimPrefix(k, "wgwait:"), SRef}))
 			}
 		}
 		sort.Slice(ds, func(i, j int) bool { return ds[i].S < ds[j].S })
